@@ -404,10 +404,57 @@ theorem evalCallExpr_simF {n : Nat} (hE : FClaimE n) (e : Expr) (he : Ff false "
 /-- the callee declares no lazy formals (or is unknown) -/
 def NoLazy (fo : Option FnObj) : Prop := ∀ f, fo = some f → f.hasLazyFormals = false
 
-/-- operands of a call: `PrepareCallExprArgs` against `evalArgs` (no lazy positions) -/
+/-- the positions `PrepareCallExprArgs` delays for this callee -/
+def isLazyVM (fo : Option FnObj) (i : Nat) : Bool :=
+  match fo with
+  | some f => !f.user && f.hasLazyFormals && f.isLazyCallArg i
+  | none => false
+
+theorem isLazyVM_noLazy {fo : Option FnObj} (h : NoLazy fo) (i : Nat) : isLazyVM fo i = false := by
+  cases fo with
+  | none => rfl
+  | some f => simp [isLazyVM, h f rfl]
+
+/-- one operand of a call, delayed or evaluated -/
+theorem prepareArgs_cons (fuel : Nat) (fo : Option FnObj) (i : Nat) (e : Expr) (es : List Expr) (s : St) :
+    (prepareArgs (fuel + 1) fo i (e :: es)).run s =
+      if isLazyVM fo i = true then (prepareArgs fuel fo (i + 1) es).run (s.allocLazy e)
+      else match (evalCallExpr fuel e).run s with
+        | (.ok v, s1) => (prepareArgs fuel fo (i + 1) es).run (s1.jmp s1.pc (some v :: s1.data))
+        | (.error flt, s1) => (.error flt, s1) := by
+  rw [prepareArgs.eq_def]
+  have key : ∀ (b : Bool), (do
+        if b = true then do
+          let s ← get
+          set { s with lazies := s.lazies ++ [({ e, stack := s.linear, curfunc := s.curfunc, value := none } : LazyObj)] }
+          pushData (.lazy s.lazies.length)
+        else do
+          let v ← evalCallExpr fuel e
+          pushData v
+        prepareArgs fuel fo (i + 1) es : M Unit).run s =
+      if b = true then (prepareArgs fuel fo (i + 1) es).run (s.allocLazy e)
+      else match (evalCallExpr fuel e).run s with
+        | (.ok v, s1) => (prepareArgs fuel fo (i + 1) es).run (s1.jmp s1.pc (some v :: s1.data))
+        | (.error flt, s1) => (.error flt, s1) := by
+    intro b
+    cases b
+    · simp only [Bool.false_eq_true, if_false, run_bind]
+      rcases (evalCallExpr fuel e).run s with ⟨r, s1⟩
+      cases r with
+      | ok v => simp only [run_pushData]; rfl
+      | error flt => rfl
+    · simp only [if_true, run_bind, run_get, run_set, run_pushData]
+      rfl
+  cases fo with
+  | none => exact key false
+  | some f => exact key _
+
+/-- operands of a call: `PrepareCallExprArgs` against `evalArgs`; a delayed operand becomes a lazy argument
+object on one side, a thunk on the other -/
 def FClaimA (n : Nat) : Prop :=
-  ∀ args, FaList args = true → ∀ (fo : Option FnObj), NoLazy fo → ∀ (i : Nat) m s rs env, RelF m s rs env →
-    match Ref.evalArgs n args i (fun _ => false) env rs with
+  ∀ args, FaList args = true → ∀ (fo : Option FnObj) (lazyAt : Nat → Bool), (∀ j, isLazyVM fo j = lazyAt j) →
+    ∀ (i : Nat) m s rs env, RelF m s rs env →
+    match Ref.evalArgs n args i lazyAt env rs with
     | .ok vs' rs' => ∃ (M : Nat) (s' : St) (m' : Nat → Nat) (vs : List Val), (∀ fuel, M ≤ fuel → (prepareArgs fuel fo i args).run s = (.ok (), s'))
         ∧ s'.data = vs.reverse.map some ++ s.data ∧ s'.pc = s.pc ∧ vs' = vs.map (trf m') ∧ RelF m' s' rs' env
         ∧ MExt s m m' ∧ RExt rs rs' ∧ FrameF s s' ∧ ∀ v ∈ vs, VOk m' s' rs' v
@@ -418,7 +465,7 @@ def FClaimA (n : Nat) : Prop :=
     | .cont _ _ => False
 
 theorem fclaimA_succ {n : Nat} (hE : FClaimE n) (hA : FClaimA n) : FClaimA (n + 1) := by
-  intro args hargs fo hfo i m s rs env hrel
+  intro args hargs fo lazyAt hlz i m s rs env hrel
   match args with
   | [] =>
     rw [Ref.evalArgs]
@@ -433,34 +480,60 @@ theorem fclaimA_succ {n : Nat} (hE : FClaimE n) (hA : FClaimA n) : FClaimA (n + 
     rw [FaList] at hargs
     simp only [Bool.and_eq_true] at hargs
     rw [Ref.evalArgs]
-    simp only [Bool.false_eq_true, if_false]
+    by_cases hl : lazyAt i = true
+    · -- a delayed operand
+      simp only [hl, if_true]
+      have hvm : isLazyVM fo i = true := by rw [hlz i]; exact hl
+      have hrelA := hrel.allocLazy e hargs.1
+      have hid : s.lazies.length = rs.thunks.length := hrel.lz.1
+      have ih := hA es hargs.2 fo lazyAt hlz (i + 1) m (s.allocLazy e) (allocThunkR rs e env) env hrelA
+      have hfrA : FrameF s (s.allocLazy e) :=
+        ⟨⟨rfl, rfl, rfl, rfl, Nat.le_refl _, fun _ _ => rfl, Nat.le_refl _, fun _ _ => rfl⟩, Nat.le_refl _, fun _ _ => rfl⟩
+      have hextA : RExt rs (allocThunkR rs e env) := ⟨fun i fr hf => ⟨fr, hf, rfl⟩, fun _ _ hc => hc⟩
+      show (match (match Ref.evalArgs n es (i + 1) lazyAt env (allocThunkR rs e env) with
+          | .ok vs s => Ref.R.ok (Val.lazy rs.thunks.length :: vs) s | r => r) with
+        | .ok vs' rs' => _ | .err rs' => _ | .timeout => _ | .brk _ _ => _ | .cont _ _ => _)
+      cases h2 : Ref.evalArgs n es (i + 1) lazyAt env (allocThunkR rs e env) with
+      | ok vs' rs2 =>
+        rw [h2] at ih
+        obtain ⟨M2, s2, m2, vs, hM2, hd2, hp2, hvs2, rel2, hm2, ext2, fr2, hcl2⟩ := ih
+        refine ⟨M2 + 1, s2, m2, .lazy s.lazies.length :: vs, fun fuel hf => ?_, ?_, hp2, ?_, rel2,
+          fun id hid => hm2 id hid, hextA.trans ext2, hfrA.trans fr2, fun w hw => ?_⟩
+        · obtain ⟨f, rfl⟩ : ∃ f, fuel = f + 1 := ⟨fuel - 1, by omega⟩
+          rw [prepareArgs_cons, if_pos hvm]
+          exact hM2 f (by omega)
+        · rw [hd2]; show _ ++ (some (Val.lazy s.lazies.length) :: s.data) = _; simp
+        · rw [List.map_cons, hvs2, ← hid]; rfl
+        · rcases List.mem_cons.mp hw with rfl | hw
+          · exact valIn_of_const (fun _ _ _ => rfl)
+          · exact hcl2 w hw
+      | err rs2 =>
+        rw [h2] at ih
+        obtain ⟨M2, hM2⟩ := ih
+        refine ⟨M2 + 1, fun fuel hf => ?_⟩
+        obtain ⟨f, rfl⟩ : ∃ f, fuel = f + 1 := ⟨fuel - 1, by omega⟩
+        obtain ⟨se, hse, htr⟩ := hM2 f (by omega)
+        exact ⟨se, by rw [prepareArgs_cons, if_pos hvm]; exact hse, htr⟩
+      | timeout => trivial
+      | brk l rs2 => rw [h2] at ih; exact ih
+      | cont l rs2 => rw [h2] at ih; exact ih
+    have hl' : lazyAt i = false := by simpa using hl
+    have hvm : ¬ isLazyVM fo i = true := by rw [hlz i, hl']; decide
+    simp only [hl', Bool.false_eq_true, if_false]
     have hunf : ∀ fuel, (prepareArgs (fuel + 1) fo i (e :: es)).run s
         = match (evalCallExpr fuel e).run s with
           | (.ok v, s1) => (prepareArgs fuel fo (i + 1) es).run (s1.jmp s1.pc (some v :: s1.data))
           | (.error flt, s1) => (.error flt, s1) := by
       intro fuel
-      rw [prepareArgs.eq_def]
-      cases fo with
-      | none =>
-        simp only [Bool.false_eq_true, if_false, run_bind]
-        rcases (evalCallExpr fuel e).run s with ⟨r, s1⟩
-        cases r with
-        | ok v => simp only [run_pushData]; rfl
-        | error flt => rfl
-      | some f =>
-        simp only [hfo f rfl, Bool.and_false, Bool.false_and, Bool.false_eq_true, if_false, run_bind]
-        rcases (evalCallExpr fuel e).run s with ⟨r, s1⟩
-        cases r with
-        | ok v => simp only [run_pushData]; rfl
-        | error flt => rfl
+      rw [prepareArgs_cons, if_neg hvm]
     have he := evalCallExpr_simF hE e hargs.1 hrel
     cases h1 : Ref.eval n e env rs with
     | ok v' rs1 =>
       rw [h1] at he
       obtain ⟨M1, s1, m1, v, hM1, hd1, hp1, hv1, rel1, hm1, ext1, fr1, hcl1⟩ := he
       simp only
-      have ih := hA es hargs.2 fo hfo (i + 1) m1 (s1.jmp s1.pc (some v :: s1.data)) rs1 env (rel1.jmp _ _)
-      cases h2 : Ref.evalArgs n es (i + 1) (fun _ => false) env rs1 with
+      have ih := hA es hargs.2 fo lazyAt hlz (i + 1) m1 (s1.jmp s1.pc (some v :: s1.data)) rs1 env (rel1.jmp _ _)
+      cases h2 : Ref.evalArgs n es (i + 1) lazyAt env rs1 with
       | ok vs' rs2 =>
         rw [h2] at ih
         obtain ⟨M2, s2, m2, vs, hM2, hd2, hp2, hvs2, rel2, hm2, ext2, fr2, hcl2⟩ := ih
@@ -656,23 +729,25 @@ theorem run_callFunction_clo (vid : Nat) (rest : Option String) (nfix : Nat) (vs
       simp only [run_ite, if_pos hlt, run_err, run_bind]
 
 /-- applying a closure object to evaluated arguments (already on the data stack — a variadic tail already
-packed —, control already in the callee): prologue, body, epilogue, back in the caller — against `applyFn` -/
+packed —, control already in the callee): prologue, body, epilogue, back in the caller — against `applyFn`.
+The caller is function `f₀` for the relation; `s₁.curfunc` is `f₀` (a call instruction) or the pseudo-function
+of the Go builtins (`apply`/`map` calling back into the machine), which only travels in the return address. -/
 def FClaimU (n : Nat) : Prop :=
-  ∀ m s₁ rs₁ env vid (c : Ref.Clos) (vs : List Val) (D : List (Option Val)), RelF m s₁ rs₁ env → GoodFn m s₁ rs₁ vid →
+  ∀ m s₁ rs₁ env vid (c : Ref.Clos) (vs : List Val) (D : List (Option Val)) (f₀ : Nat), RelF m (s₁.withCur f₀) rs₁ env →
+    GoodFn m s₁ rs₁ vid →
     rs₁.clos[m vid]? = some c →
     s₁.data = vs.reverse.map some ++ D → (∀ v ∈ vs, VOk m s₁ rs₁ v) → arOk c.rest c.ps.length vs.length →
     match Ref.applyFn n (.fn (m vid)) (vs.map (trf m)) rs₁ with
     | .ok v' rs' => ∃ (s' : St) (m' : Nat → Nat) (v : Val), ReachX (enteredA s₁ vid c.rest c.ps.length vs D) s'
         ∧ s'.pc = s₁.pc + 1
-        ∧ s'.data = some v :: D ∧ v' = trf m' v ∧ RelF m' s' rs' env ∧ MExt s₁ m m' ∧ RExt rs₁ rs'
+        ∧ s'.data = some v :: D ∧ v' = trf m' v ∧ RelF m' (s'.withCur f₀) rs' env ∧ MExt s₁ m m' ∧ RExt rs₁ rs'
         ∧ FrameF s₁ s' ∧ VOk m' s' rs' v
     | .err rs' => FailsX (enteredA s₁ vid c.rest c.ps.length vs D) rs'.trace
     | .timeout => True
     | .brk _ _ => False
     | .cont _ _ => False
 
-theorem okParam_name {p : String} (h : okParam p = true) : okName p = true := by
-  unfold okParam at h; simp only [Bool.and_eq_true] at h; exact h.1
+theorem okParam_name {p : String} (h : okParam p = true) : okName p = true := h
 
 /-! ## The call instruction: the reference side -/
 
@@ -703,24 +778,79 @@ theorem ref_eval_call_sym (k : Nat) (h : String) (args : List Expr) (env : Nat) 
   | none => rfl
   | some r => rfl
 
-theorem okParam_not_lazy {p : String} (h : okParam p = true) : Ref.isLazyParam p = false := by
-  unfold okParam at h; simp only [Bool.and_eq_true, Bool.not_eq_true'] at h
-  exact h.2
+/-- the positions the reference evaluator delays for a closure -/
+def lazyAtC (c : Ref.Clos) : Nat → Bool := fun i => decide (i < c.ps.length) && Ref.isLazyParam (c.ps.getD i "")
 
 theorem refCall_fn (k cid : Nat) (args : List Expr) (env : Nat) (rs : Ref.St) (c : Ref.Clos)
-    (hc : rs.clos[cid]? = some c) (hp : ∀ p ∈ c.ps, okParam p = true) :
+    (hc : rs.clos[cid]? = some c) :
     refCall k (.fn cid) args env rs =
-      match Ref.evalArgs (k + 1) args 0 (fun _ => false) env rs with
+      match Ref.evalArgs (k + 1) args 0 (lazyAtC c) env rs with
       | .ok vs s => Ref.applyFn (k + 1) (.fn cid) vs s
       | .err s => .err s | .brk l s => .brk l s | .cont l s => .cont l s | .timeout => .timeout := by
-  unfold refCall
-  have hl : (fun i => decide (i < c.ps.length) && Ref.isLazyParam (c.ps.getD i "")) = fun _ => false := by
-    funext i
-    by_cases hi : i < c.ps.length
-    · have : c.ps.getD i "" = c.ps[i] := by simp [List.getD_eq_getElem?_getD, hi]
-      rw [this, okParam_not_lazy (hp _ (List.getElem_mem hi))]; simp
-    · simp [hi]
-  simp only [isFunction, Bool.not_true, Bool.false_eq_true, if_false, hc, hl]
+  unfold refCall lazyAtC
+  simp only [isFunction, Bool.not_true, Bool.false_eq_true, if_false, hc]
+
+/-- the arguments `evalArgs` returns are as many as the operands -/
+theorem ref_evalArgs_length' : ∀ (n : Nat) (es : List Expr) (i : Nat) (la : Nat → Bool) (env : Nat) (rs : Ref.St) (vs : List Val)
+    (rs' : Ref.St), Ref.evalArgs n es i la env rs = .ok vs rs' → vs.length = es.length
+  | 0, es, i, la, env, rs, vs, rs', h => by rw [Ref.evalArgs] at h; cases h
+  | n + 1, [], i, la, env, rs, vs, rs', h => by
+    rw [Ref.evalArgs] at h
+    · injection h with h1 _; subst h1; rfl
+    · omega
+  | n + 1, e :: es, i, la, env, rs, vs, rs', h => by
+    rw [Ref.evalArgs] at h
+    by_cases hl : la i = true
+    · simp only [hl, if_true] at h
+      cases h2 : Ref.evalArgs n es (i + 1) la env { rs with thunks := rs.thunks ++ [{ e, env, value := none }] } with
+      | ok vs2 rs2 =>
+        rw [h2] at h; injection h with h1 _; subst h1
+        simp [ref_evalArgs_length' n es (i + 1) la env _ vs2 rs2 h2]
+      | err _ => rw [h2] at h; cases h
+      | timeout => rw [h2] at h; cases h
+      | brk _ _ => rw [h2] at h; cases h
+      | cont _ _ => rw [h2] at h; cases h
+    · have hl' : la i = false := by simpa using hl
+      simp only [hl', Bool.false_eq_true, if_false] at h
+      cases h1 : Ref.eval n e env rs with
+      | ok v rs1 =>
+        rw [h1] at h; simp only at h
+        cases h2 : Ref.evalArgs n es (i + 1) la env rs1 with
+        | ok vs2 rs2 =>
+          rw [h2] at h; injection h with h3 _; subst h3
+          simp [ref_evalArgs_length' n es (i + 1) la env rs1 vs2 rs2 h2]
+        | err _ => rw [h2] at h; cases h
+        | timeout => rw [h2] at h; cases h
+        | brk _ _ => rw [h2] at h; cases h
+        | cont _ _ => rw [h2] at h; cases h
+      | err _ => rw [h1] at h; cases h
+      | timeout => rw [h1] at h; cases h
+      | brk _ _ => rw [h1] at h; cases h
+      | cont _ _ => rw [h1] at h; cases h
+
+/-- the machine and the reference evaluator delay the same operands of a call of a closure object -/
+theorem isLazyVM_clo {fo : FnObj} {c : Ref.Clos} (hu : fo.user = false) (hp : fo.params = c.ps ++ c.rest.toList)
+    (hn : fo.nargs = c.ps.length) (hv : fo.varargs = c.rest.isSome) (j : Nat) : isLazyVM (some fo) j = lazyAtC c j := by
+  unfold isLazyVM lazyAtC FnObj.isLazyCallArg FnObj.hasLazyFormals Ref.isLazyParam
+  simp only [hu, Bool.not_false, Bool.true_and, hp, hn, hv]
+  by_cases hj : j < c.ps.length
+  · have hget : (c.ps ++ c.rest.toList)[j]? = some c.ps[j] := by rw [List.getElem?_append_left hj]; simp [hj]
+    have hgd : c.ps.getD j "" = c.ps[j] := by simp [List.getD_eq_getElem?_getD, hj]
+    have hnge : ¬ j ≥ c.ps.length := by omega
+    simp only [hget, hgd, hj, decide_true, Bool.true_and, hnge, decide_false, Bool.and_false, Bool.false_eq_true, if_false]
+    by_cases hs : c.ps[j].startsWith "#" = true
+    · have hany : (c.ps ++ c.rest.toList).any (fun x => x.startsWith "#") = true :=
+        List.any_eq_true.mpr ⟨c.ps[j], List.mem_append_left _ (List.getElem_mem hj), hs⟩
+      simp [hany, hs]
+    · have hs' : c.ps[j].startsWith "#" = false := by simpa using hs
+      simp [hs']
+  · have hge : j ≥ c.ps.length := by omega
+    simp only [hj, decide_false, Bool.false_and]
+    cases hr : c.rest with
+    | none =>
+      have hget : c.ps[j]? = none := by simp; omega
+      simp [hr, hget]
+    | some r => simp [hr, hge]
 
 theorem refCall_builtin (k : Nat) (name : String) (args : List Expr) (env : Nat) (rs : Ref.St) :
     refCall k (.builtin name) args env rs =
@@ -776,30 +906,21 @@ theorem simF_call_fn {k : Nat} (hA : FClaimA (k + 1)) (hU : FClaimU (k + 1)) {h 
     (hl : lexLookup s h = some (i, .fn vid)) (hg : GoodFn m s rs vid) :
     SimF [.callExpr (.sym h) args] m s rs env (refCall k (.fn (m vid)) args env rs) := by
   obtain ⟨c, hc1, hrest, hnd, hokp, hbody, hparams, hnargs, hvar, huser, _, _, _⟩ := hg.clo
-  rw [refCall_fn k (m vid) args env rs c hc1 hokp]
-  have hfo : NoLazy (some (fnOf s vid)) := by
-    intro f hf
-    injection hf with hf; subst hf
-    unfold FnObj.hasLazyFormals
-    rw [hparams, List.any_eq_false]
-    intro p hp
-    have := okParam_not_lazy (okParam_all hokp hrest p hp)
-    unfold Ref.isLazyParam at this
-    simp [this]
-  have hprep := hA args hargs (some (fnOf s vid)) hfo 0 m s rs env hrel
+  rw [refCall_fn k (m vid) args env rs c hc1]
+  have hprep := hA args hargs (some (fnOf s vid)) (lazyAtC c) (isLazyVM_clo huser hparams hnargs hvar) 0 m s rs env hrel
   have hexec : ∀ F, (exec (F + 3) (.callExpr (.sym h) args)).run s
       = guardedRun s.data.length
           ((prepareArgs (F + 1) (some (fnOf s vid)) 0 args >>= fun _ => callFunction vid args.length : M Unit).run s) :=
     fun F => by rw [exec_callExpr_sym F h args s i _ hl, run_callResolved_fn]
   obtain ⟨b0, hch, hfc⟩ := hrel.ctx
   have hcurlt := hfc.lt
-  cases h1 : Ref.evalArgs (k + 1) args 0 (fun _ => false) env rs with
+  cases h1 : Ref.evalArgs (k + 1) args 0 (lazyAtC c) env rs with
   | ok vs' rs1 =>
     rw [h1] at hprep
     obtain ⟨M, s1, m1, vs, hM, hd1, hp1, hvs, rel1, hm1, ext1, fr1, hcl⟩ := hprep
     simp only
     have hlen : args.length = vs.length := by
-      rw [← ref_evalArgs_length _ _ _ _ _ _ _ h1, hvs, List.length_map]
+      rw [← ref_evalArgs_length' _ _ _ _ _ _ _ _ h1, hvs, List.length_map]
     have hfo1 : fnOf s1 vid = fnOf s vid := fr1.fns vid hg.lt
     have hcf := run_callFunction_clo vid c.rest c.ps.length vs s.data s1 hd1 (by rw [hfo1]; exact hvar) (by rw [hfo1]; exact hnargs)
     have hg1 : GoodFn m1 s1 rs1 vid := hg.ext fr1 ext1 hm1
@@ -815,12 +936,13 @@ theorem simF_call_fn {k : Nat} (hA : FClaimA (k + 1)) (hU : FClaimU (k + 1)) {h 
         simp only
         rw [hlen, hcf]; rfl
       have r1 : ReachX s (enteredA s1 vid c.rest c.ps.length vs s.data) := ReachX.step hseg.head (M + 3) hx
-      have hu := hU m1 s1 rs1 env vid c vs s.data rel1 hg1 (by rw [hmv]; exact ext1.2 _ _ hc1) hd1 hcl har
+      have hu := hU m1 s1 rs1 env vid c vs s.data s1.curfunc rel1 hg1 (by rw [hmv]; exact ext1.2 _ _ hc1) hd1 hcl har
       rw [hmv, ← hvs] at hu
       cases h2 : Ref.applyFn (k + 1) (.fn (m vid)) vs' rs1 with
       | ok v' rs2 =>
         rw [h2] at hu
         obtain ⟨s', m', v, r2, hpc, hdat, hv, rel2, hm2, ext2, fr2, hcl2⟩ := hu
+        rw [withCur_self fr2.curfunc] at rel2
         refine ⟨s', m', v, r1.trans r2, ⟨?_, by rw [hpc, hp1]; simp, hdat⟩, hv, rel2, hm1.trans hm2 fr1.fnsLen,
           ext1.trans ext2, fr1.trans fr2, hcl2⟩
         rw [fr2.curfunc, fr1.curfunc, fr2.fns _ (by rw [← fr1.curfunc]; exact Nat.lt_of_lt_of_le (by rw [fr1.curfunc]; exact hcurlt) fr1.fnsLen),
@@ -862,7 +984,7 @@ theorem simF_call_builtin {k : Nat} (hA : FClaimA (k + 1)) {h name : String} (hn
     (hl : lexLookup s h = some (i, .builtin name)) :
     SimF [.callExpr (.sym h) args] m s rs env (refCall k (.builtin name) args env rs) := by
   rw [refCall_builtin]
-  have hprep := hA args hargs none (fun f hf => by cases hf) 0 m s rs env hrel
+  have hprep := hA args hargs none (fun _ => false) (fun _ => rfl) 0 m s rs env hrel
   have hexec : ∀ F, (exec (F + 3) (.callExpr (.sym h) args)).run s
       = guardedRun s.data.length
           ((prepareArgs (F + 1) none 0 args >>= fun _ => callUser (F + 1) name args.length : M Unit).run s) :=
@@ -883,11 +1005,11 @@ theorem simF_call_builtin {k : Nat} (hA : FClaimA (k + 1)) {h name : String} (hn
     -- the successful case, uniformly in the new heap and trace
     have hok : ∀ (v : Val) (s3 : St) (rsF : Ref.St), foResult name vs (inBuiltin s1 s.data) = (.ok v, s3) →
         s3.scopes = s1.scopes → s3.linear = s1.linear → s3.fns = s1.fns → s3.suspended = s1.suspended →
-        s3.loops = s1.loops →
+        s3.loops = s1.loops → s3.lazies = s1.lazies → rsF.thunks = rs1.thunks →
         rsF.frames = rs1.frames → rsF.clos = rs1.clos → rsF.heap = trHeap m1 id id s3.heap → s3.trace = rsF.trace →
         HOk m1 s1 rs1 s3.heap → VOk m1 s1 rs1 v →
         SimF [.callExpr (.sym h) args] m s rs env (.ok (trf m1 v) rsF) := by
-      intro v s3 rsF hres hsc hlin hfns hsus hlps hfr hcl hheap htr hhok hvok
+      intro v s3 rsF hres hsc hlin hfns hsus hlps hlzs hths hfr hcl hheap htr hhok hvok
       let sF : St := { s3 with data := some v :: s.data, addr := s1.addr, curfunc := s1.curfunc, pc := s1.pc + 1 }
       have hx : ∀ f, M + 3 ≤ f → (exec (f + 1) (.callExpr (.sym h) args)).run s = (.ok (), sF) := by
         intro f hf
@@ -895,7 +1017,7 @@ theorem simF_call_builtin {k : Nat} (hA : FClaimA (k + 1)) {h name : String} (hn
         rw [hexec (G + 1), run_bind, hM (G + 1 + 1) (by omega)]
         simp only
         rw [hlen, hcu G, hres]; rfl
-      have hrelF : RelF m1 sF rsF env := rel1.of_same hsc hlin hfns rfl hfr hcl hheap htr hhok (LoopsExt.of_eq hlps)
+      have hrelF : RelF m1 sF rsF env := rel1.of_same hsc hlin hfns rfl hfr hcl hheap htr hhok (LoopsExt.of_eq hlps) hlzs hths
       have hfnF : fnOf sF sF.curfunc = fnOf s s.curfunc := by
         show s3.fns.getD s1.curfunc {} = _
         rw [hfns, fr1.curfunc]; exact fr1.fns _ hcurlt
@@ -919,7 +1041,7 @@ theorem simF_call_builtin {k : Nat} (hA : FClaimA (k + 1)) {h name : String} (hn
       have hpr : pr rs1.heap (vs'.headD .nil) = pr (inBuiltin s1 s.data).heap (vs.headD .nil) := by
         rw [hheapb, hvs, headD_map_tr]; exact pr_tr m1 id id _ _
       rw [hvs, headD_map_tr]
-      refine hok _ _ { rs1 with trace := rs1.trace ++ [pr rs1.heap (trf m1 (vs.headD .nil))] } hfo rfl rfl rfl rfl rfl rfl rfl
+      refine hok _ _ { rs1 with trace := rs1.trace ++ [pr rs1.heap (trf m1 (vs.headD .nil))] } hfo rfl rfl rfl rfl rfl rfl rfl rfl rfl
         rel1.heap ?_ rel1.hok ?_
       · show (inBuiltin s1 s.data).trace ++ [pr (inBuiltin s1 s.data).heap _] = _
         rw [htrb, ← headD_map_tr, ← hvs, hpr]
@@ -938,7 +1060,7 @@ theorem simF_call_builtin {k : Nat} (hA : FClaimA (k + 1)) {h name : String} (hn
           rw [hp]
         simp only [Option.map_some]
         have hpc := prim_valIn name vs s1.heap v hp' hp hclvs rel1.hok
-        exact hok v _ { rs1 with heap := trHeap m1 id id hp' } hfo rfl rfl rfl rfl rfl rfl rfl rfl rel1.trace hpc.2 hpc.1
+        exact hok v _ { rs1 with heap := trHeap m1 id id hp' } hfo rfl rfl rfl rfl rfl rfl rfl rfl rfl rfl rel1.trace hpc.2 hpc.1
       | none =>
         have hfo : foResult name vs (inBuiltin s1 s.data) = (.error .err, inBuiltin s1 s.data) := by
           unfold foResult; rw [if_neg ht]
@@ -969,7 +1091,7 @@ theorem simF_call_arr {k : Nat} (hA : FClaimA (k + 1)) {h : String} {args : List
     (hl : lexLookup s h = some (i, .arr r)) :
     SimF [.callExpr (.sym h) args] m s rs env (refCall k (.arr r) args env rs) := by
   rw [refCall_arr]
-  have hprep := hA args hargs none (fun f hf => by cases hf) 0 m s rs env hrel
+  have hprep := hA args hargs none (fun _ => false) (fun _ => rfl) 0 m s rs env hrel
   have hexec : ∀ F, (exec (F + 3) (.callExpr (.sym h) args)).run s
       = guardedRun s.data.length ((prepareArgs (F + 1) none 0 args >>= fun _ => (err : M Unit) : M Unit).run s) :=
     fun F => by rw [exec_callExpr_sym F h args s i _ hl, run_callResolved_arr]
@@ -1020,9 +1142,20 @@ theorem simF_call_other {k : Nat} {h : String} {args : List Expr} {m : Nat → N
     obtain ⟨F, rfl⟩ : ∃ F, f = F + 2 := ⟨f - 2, by omega⟩
     exact ⟨s, hexec F, hrel.trace⟩
 
+/-- a call whose callee symbol denotes the Go builtin `name` (for `force`, `apply`, `map`: proved in `SimF2Lazy.lean`,
+`SimF2Apply.lean` from the claims at lower fuel) -/
+def FClaimH (k : Nat) (name : String) : Prop :=
+  ∀ (h : String) (args : List Expr), FaList args = true → ∀ (m : Nat → Nat) (s : St) (rs : Ref.St) (env : Nat)
+    (pre post : List Instr) (i : Nat), RelF m s rs env → Seg s pre [.callExpr (.sym h) args] post →
+    lexLookup s h = some (i, .builtin name) →
+    SimF [.callExpr (.sym h) args] m s rs env (refCall k (.builtin name) args env rs)
+
+/-- a call of `force` -/
+abbrev FClaimG (k : Nat) : Prop := FClaimH k "force"
+
 /-- **A call by name**: callee by lookup; a closure object, a first-order builtin, or something
 that cannot be called. -/
-theorem simF_call {k : Nat} (hA : FClaimA (k + 1)) (hU : FClaimU (k + 1)) {h : String} (hh : okSym h = true)
+theorem simF_call {k : Nat} (hA : FClaimA (k + 1)) (hU : FClaimU (k + 1)) (hG : ∀ name, hoB name → FClaimH k name) {h : String} (hh : okSym h = true)
     {args : List Expr} (hargs : FaList args = true) {m : Nat → Nat} {s : St} {rs : Ref.St} {env : Nat}
     {pre post : List Instr} (hrel : RelF m s rs env) (hseg : Seg s pre [.callExpr (.sym h) args] post) :
     SimF [.callExpr (.sym h) args] m s rs env (Ref.eval (k + 2) (.call (.sym h) args) env rs) := by
@@ -1044,7 +1177,10 @@ theorem simF_call {k : Nat} (hA : FClaimA (k + 1)) (hU : FClaimU (k + 1)) {h : S
     have hv : VOk m s rs fv := (hrel.vok i h fv (lexLookup_sound hl)).ok hh
     cases fv with
     | fn vid => exact simF_call_fn hA hU hargs hrel hseg hl hv.fn
-    | builtin name => exact simF_call_builtin hA hv.builtin hargs hrel hseg hl
+    | builtin name =>
+      rcases hv.builtin with hn | hn
+      · exact simF_call_builtin hA hn hargs hrel hseg hl
+      · exact hG name hn h args hargs m s rs env pre post i hrel hseg hl
     | arr r => exact simF_call_arr hA hargs hrel hseg hl
     | nil => exact simF_call_other hrel hseg hl hv (fun _ e => by cases e) (fun _ e => by cases e) (fun _ e => by cases e)
     | bool b => exact simF_call_other hrel hseg hl hv (fun _ e => by cases e) (fun _ e => by cases e) (fun _ e => by cases e)
